@@ -37,7 +37,8 @@ def input (j : Json) : Except String Json := do
   let sch ← field j "input_schemas" >>= inputSchemasOfJson
   let files ← field j "files" >>= filesOfJson
   let user ← field j "user" >>= dictOfJson
-  let res := checkInputSection files sch (getConfigInput user)
+  let fl ← flagsOfJson (fieldD j "flags" (mkObj []))
+  let res := checkInputSection files fl sch (getConfigInput user)
   let clauses := inputClauses files (Dict.lookup user "input")
   return mkObj [("res", resToJson (fun d => jvalToJson (.obj d)) res),
                 ("verdict", domToJson (inputVerdict files (Dict.lookup user "input"))),
